@@ -5,7 +5,7 @@ from lib import symx, ch
 LEVEL = 'model_checking'
 MANIFEST = {'category': 'model_checking', 'engine': 'crosshair+symx+z3',
  'technique': 'CrossHair (z3) on the real letter-id functions for all positions through four letters; symx execution of the matcher parsed from a displayed label on messages with symbolic ids/incarnations',
- 'text': 'For every n < 26+26^2+26^3+26^4: label(n) converts back to n, distinct n give distinct labels, labels are 1-4 letters at their shortlex position, label(n+1) is the shortlex successor (no gaps, no repeats), capital labels are letter-for-letter the capitals of the lower-case ones; a displayed `id+letters` text parses to a matcher accepting exactly that (id, incarnation) among all pairs below 10^6. The matcher parsed from the label printed by the real code (`B: 7c`, `7c`, `B:`) evaluated on a message with symbolic target/argument/destroyed object ids and incarnations and any connection selects it iff the message is on, mentions, creates or destroys that very incarnation on that connection.',
+ 'text': 'For every n < 26+26^2+26^3+26^4: label(n) converts back to n, distinct n give distinct labels, labels are 1-4 letters at their shortlex position, label(n+1) is the shortlex successor (no gaps, no repeats), capital labels are letter-for-letter the capitals of the lower-case ones; a displayed `id+letters` text parses to a matcher accepting exactly that (id, incarnation) among all pairs below 10^6. The matcher parsed from the label printed by the real code (`B: 7c`, `7c`, `B:`) evaluated on a message with symbolic target/argument/destroyed object ids and incarnations and any connection selects it iff the message is on, mentions, creates or destroys that very incarnation on that connection. From ANY position k < 20 000 LetterIdGenerator hands out label(k), label(k+1) (no reserved, skipped or repeated names).',
  'note': 'Trusted: CrossHair/z3 and its string model, lib/symx.py. Bounds: positions through four letters (475 254); ids < 10^5, incarnations < 702 for the textual round trip; labels from a pool of 4 (id, incarnation) pairs x 3 connection names for the matcher half; messages with <= 2 object arguments.'}
 EXPLANATION = MANIFEST['text']
 ASSUMPTIONS = ['CrossHair "Confirmed over all paths" is trusted together with the reachability twin', 'colour disabled while labels are produced']
